@@ -7,8 +7,8 @@ CONSTANTS
   MaxLatch = 1
   FileSteps = FALSE
   QKinds = {"past", "exact", "future"}
-  Fix = {}
+  Fix = {"stale", "zero", "tmp"}
   KKOps = {"U", "R", "T"}
 VIEW view
-INVARIANTS TypeOK FinishedOnlyAfter Answer ErrorTextExact NoLostUpdate QueryComplete TagAtomic
+INVARIANTS TypeOK FinishedOnlyAfter Answer ErrorTextExact NoLostUpdate QueryTruth QueryComplete TagAtomic
 CHECK_DEADLOCK FALSE
